@@ -8,6 +8,7 @@ CONSTANTS
   Deviations = {}
   MaxLevel = 5
   Acts = {"Populate", "AddHole", "AddDepthData", "AddIntervalData", "SetValues", "Rename", "RemoveDataViaParent", "RemoveDataViaWorkspace", "RemoveHoleViaParent", "RemoveHoleViaWorkspace", "RemovePropertyGroup", "AddValuesToTable", "Reopen", "CopyGroup", "Protect"}
+  TrackSession = TRUE
   Kind = "float"
 VIEW vw
 INVARIANT AllTiled
